@@ -4,7 +4,7 @@ _TYPES = ['u8', 'i8', 'u16', 'i16', 'u32', 'i32', 'u64', 'i64', 'f32', 'f64']
 _MIXED = ['mixedA', 'mixedB', 'mixedC', 'mixedD']
 # header-only, same x86-64 baseline as the oracle expressions, no FMA contraction
 _FLAGS = '-ffp-contract=off'
-_TH = dict(scale=4, seeds=3)
+_TH = dict(scale=3, seeds=3)
 
 PROP = dict(
     rule='rapidcheck cases {overload-instance id, mode, 16 pool values}: one instance = (overload family of vec.h, shape or '
@@ -13,7 +13,7 @@ PROP = dict(
          '(bit-exact for integers and single float operations, derived tolerance 8 eps x sum|terms| for multi-operation float '
          'expressions); non-trivial = all pool values pairwise distinct (within and across operands), distinct by hash of '
          '(instance id, mode, values); coverage.labels lists every instance id, harness.*.instances = enumerated/exercised',
-    floor=dict(quick=100000, thorough=1000000),
+    floor=dict(quick=800000, thorough=5000000),
     assumptions=TRUST,
     parallel=14,
     bins=[rc('C04_' + t, 'harness/C04_%s.cpp' % t, None, flags=_FLAGS, thorough=_TH) for t in _TYPES]
